@@ -1,6 +1,7 @@
 import Shentu.Model.Shield
 import Shentu.Gen.Shield
 import Shentu.Gen.Wiring
+import Shentu.Proofs.ShieldFundClaim
 /-
   The regenerated tie of the shield model: every guard and amount below is translated from the current Go source on every
   run (Shentu/Gen/Shield.lean); each theorem states that the translated expression is the one the model (and the C02–C07
@@ -66,5 +67,77 @@ theorem tie_poolClosable (s : State) (p : Pool) :
   cases decide (p.shield > 0) <;> cases decide (p.limit > 0) <;> cases s.lists.any (·.pool == p.id) <;> rfl
 /-- pool.go UpdatePool: adding fees without shield collects the coins (the model's `updatePool` sends them) -/
 theorem tie_feeOnlyCollects : Gen.Shield.feeOnlyCollects = true := by decide
+
+/-! ## the split of an approved claim's loss (`CreateReimbursement`, `UpdateProviderCollateralForPayout`) -/
+
+/-- proposal.go CreateReimbursement: a provider's two truncated shares are its collateral times the two ratios -/
+theorem tie_split_shares (c : Int) (pr yr : Dec) :
+    Gen.Shield.splitPurchased c pr = Dec.truncateInt (Dec.mul (Dec.ofInt c) pr) ∧
+    Gen.Shield.splitPayout c yr = Dec.truncateInt (Dec.mul (Dec.ofInt c) yr) := ⟨rfl, rfl⟩
+/-- each share is capped by what is still outstanding -/
+theorem tie_split_caps (x total : Int) :
+    Gen.Shield.splitPurchasedCapped x total = decide (x > total) ∧ Gen.Shield.splitPayoutCapped x total = decide (x > total) := ⟨rfl, rfl⟩
+/-- the two "+1" corrections: each is taken only while something is outstanding AND the collateral exceeds payout + purchased,
+    read at that moment (the second guard sees the purchased share already raised by the first correction).  A refactoring that
+    evaluates the spare-collateral test once for both corrections changes the regenerated guard (it then mentions a variable that is
+    not a parameter of the site, `splitPurchasedPlusOne_found` becomes false) and this theorem and `all_sites_found` stop checking. -/
+theorem tie_split_plus_one (pur tp c pay ty : Int) :
+    Gen.Shield.splitPurchasedPlusOne pur tp c pay = (decide (pur < tp) && decide (c > pay + pur)) ∧
+    Gen.Shield.splitPayoutPlusOne pay ty c pur = (decide (pay < ty) && decide (c > pay + pur)) := ⟨rfl, rfl⟩
+/-- the loop stops when nothing is outstanding; afterwards anything outstanding is the panic "not enough payout made" -/
+theorem tie_split_end (ty : Int) :
+    Gen.Shield.splitDone ty = decide (ty ≤ 0) ∧ Gen.Shield.splitShort ty = decide (ty > 0) := by
+  refine ⟨?_, rfl⟩
+  unfold Gen.Shield.splitDone
+  by_cases h : ty > 0
+  · have h2 : ¬ ty ≤ 0 := by omega
+    simp [h, h2]
+  · have h2 : ty ≤ 0 := by omega
+    simp [h, h2]
+/-- the order of the statements, as source text: shares and caps first, then the "+1" of the purchased share, then the "+1" of the
+    payout, each `if` reading the current values -/
+theorem tie_split_steps : Gen.Shield.splitSteps =
+    ["purchased := provider.Collateral.ToDec().Mul(purchaseRatio).TruncateInt()",
+     "if purchased.GT(totalPurchased) { purchased = totalPurchased }",
+     "payout := provider.Collateral.ToDec().Mul(payoutRatio).TruncateInt()",
+     "if payout.GT(totalPayout) { payout = totalPayout }",
+     "if purchased.LT(totalPurchased) && provider.Collateral.GT(payout.Add(purchased)) { purchased = purchased.Add(sdk.OneInt()) }",
+     "if payout.LT(totalPayout) && provider.Collateral.GT(payout.Add(purchased)) { payout = payout.Add(sdk.OneInt()) }"] := by decide
+
+/-- one provider's two amounts, assembled from the regenerated pieces in the order of `splitSteps` -/
+def genSplit (c : Int) (pr yr : Dec) (tp ty : Int) : Int × Int :=
+  let pur0 := Gen.Shield.splitPurchased c pr
+  let pur1 := if Gen.Shield.splitPurchasedCapped pur0 tp then tp else pur0
+  let pay0 := Gen.Shield.splitPayout c yr
+  let pay1 := if Gen.Shield.splitPayoutCapped pay0 ty then ty else pay0
+  let pur2 := if Gen.Shield.splitPurchasedPlusOne pur1 tp c pay1 then pur1 + 1 else pur1
+  let pay2 := if Gen.Shield.splitPayoutPlusOne pay1 ty c pur2 then pay1 + 1 else pay1
+  (pur2, pay2)
+
+theorem cap_eq_min (a b : Int) : (if decide (a > b) = true then b else a) = min a b := by
+  by_cases h : a > b
+  · simp only [h, decide_true, if_true]; omega
+  · simp only [h, decide_false, Bool.false_eq_true, if_false]; omega
+
+/-- **the regenerated split is the model's split**: `Shield.reimburseLoop` itself is written with the regenerated shares and "+1"
+    guards (`Gen.Shield.splitPurchased`, `splitPayout`, `splitPurchasedPlusOne`, `splitPayoutPlusOne`); what it asks of one provider
+    (`Fund.payoutPur`, `Fund.payoutPay`: the loop body in the terms every C02–C08 theorem about the payout is stated in,
+    `Fund.reimburseLoop_cons`) is the composition of the regenerated shares, caps and guards in the order of `splitSteps` -/
+theorem tie_split_is_model (pr yr : Dec) (p : Provider) (tp ty : Int) :
+    genSplit p.collateral pr yr tp ty = (Fund.payoutPur pr yr p tp ty, Fund.payoutPay pr yr p tp ty) := by
+  unfold genSplit Fund.payoutPay Fund.payoutPur Gen.Shield.splitPurchased Gen.Shield.splitPayout Gen.Shield.splitPurchasedCapped
+    Gen.Shield.splitPayoutCapped Gen.Shield.splitPurchasedPlusOne Gen.Shield.splitPayoutPlusOne
+  simp only [cap_eq_min]
+/-- example: the regenerated split on two providers of 3 with shield 4 and loss 2 (the smallest input on which the payments fall short:
+    Props/C04r): the first provider is asked to cover 3 and pay 0 -/
+example : genSplit 3 (Dec.quo (Dec.ofInt 4) (Dec.ofInt 6)) (Dec.quo (Dec.ofInt 2) (Dec.ofInt 6)) 4 2 = (3, 0) := by decide
+
+/-- proposal.go UpdateProviderCollateralForPayout ⇔ the three cases of the model's `updateProviderForPayout`: the payment comes out of
+    the free collateral entirely, partly (what the free collateral leaves after the purchased share), or not at all -/
+theorem tie_payout_three_way (p : Provider) (purchased payout : Int) :
+    Gen.Shield.payoutFitsFree p.collateral p.withdrawing purchased payout = decide (p.collateral - p.withdrawing ≥ purchased + payout) ∧
+    Gen.Shield.purchasedFitsFree p.collateral p.withdrawing purchased = decide (p.collateral - p.withdrawing ≥ purchased) ∧
+    Gen.Shield.payoutFromFreePartly p.collateral p.withdrawing purchased = p.collateral - p.withdrawing - purchased ∧
+    Gen.Shield.uncoveredPurchase p.collateral p.withdrawing purchased = purchased - (p.collateral - p.withdrawing) := ⟨rfl, rfl, rfl, rfl⟩
 
 end Shentu.Props.ShieldTie
